@@ -14,10 +14,12 @@
 (*                                                                         *)
 (* FlushPolicy = "always" is the code.  "skip_some" is a broken sibling    *)
 (* (flush skipped for some messages), "late" another (flush after the      *)
-(* call returned): TLC must reject both.                                   *)
+(* call returned), "swallow" a third (a failing flush is swallowed and the *)
+(* call returns): TLC must reject all three.                               *)
 (***************************************************************************)
 EXTENDS Naturals, Sequences, FiniteSets, TLC
-CONSTANTS N, FlushPolicy, MayFail
+CONSTANTS N, FlushPolicy, MayFail,
+          MayFlushFail   \* flush() may raise once per logging call (a transient I/O fault, e.g. ENOSPC): nothing reaches the kernel
 VARIABLES k,        \* message being written (1..N), N+1 when the program is over
           pc,       \* "idle" | "written" | "flushed"
           ubuf,     \* process buffer: sequence of pieces [id, part] with part \in {"whole", "tail"}
@@ -25,15 +27,16 @@ VARIABLES k,        \* message being written (1..N), N+1 when the program is ove
           acked,    \* ids whose logging call has returned
           failed,   \* ids whose dumps() raised (no line is due)
           crashed,
-          writes    \* number of write() calls made for the current message
-vars == <<k, pc, ubuf, kfile, acked, failed, crashed, writes>>
+          writes,   \* number of write() calls made for the current message
+          ffail     \* a flush has already failed in the current logging call
+vars == <<k, pc, ubuf, kfile, acked, failed, crashed, writes, ffail>>
 Piece(i, p) == [id |-> i, part |-> p]
-Init == k = 1 /\ pc = "idle" /\ ubuf = <<>> /\ kfile = <<>> /\ acked = {} /\ failed = {} /\ crashed = FALSE /\ writes = 0
+Init == k = 1 /\ pc = "idle" /\ ubuf = <<>> /\ kfile = <<>> /\ acked = {} /\ failed = {} /\ crashed = FALSE /\ writes = 0 /\ ffail = FALSE
 Alive == ~crashed /\ k <= N
 \* dumps() raises (value not encodable): no line is due for this message; the failure is reported elsewhere, the call returns
 DumpsFail == /\ Alive /\ pc = "idle" /\ MayFail
              /\ failed' = failed \cup {k} /\ acked' = acked \cup {k} /\ k' = k + 1
-             /\ UNCHANGED <<pc, ubuf, kfile, crashed, writes>>
+             /\ UNCHANGED <<pc, ubuf, kfile, crashed, writes, ffail>>
 \* dumps() succeeded; the single write: the whole line is buffered, or (big line) its head goes straight to the kernel and the
 \* rest is buffered
 Write(spill) == /\ Alive /\ pc = "idle"
@@ -41,7 +44,7 @@ Write(spill) == /\ Alive /\ pc = "idle"
                    THEN kfile' = Append(kfile, Piece(k, "head")) /\ ubuf' = <<Piece(k, "tail")>>
                    ELSE ubuf' = Append(ubuf, Piece(k, "whole")) /\ UNCHANGED kfile
                 /\ pc' = "written" /\ writes' = writes + 1
-                /\ UNCHANGED <<k, acked, failed, crashed>>
+                /\ UNCHANGED <<k, acked, failed, crashed, ffail>>
 \* flush: buffered pieces reach the kernel in order; a tail completes the head already there
 Drain == LET merge(kf, p) == IF p.part = "tail" THEN [kf EXCEPT ![Len(kf)] = Piece(p.id, "whole")] ELSE Append(kf, p)
              RECURSIVE go(_, _)
@@ -51,15 +54,29 @@ Flush == /\ Alive /\ pc = "written"
          /\ (FlushPolicy = "skip_some" => k % 2 = 0)          \* broken sibling: odd messages are not flushed
          /\ FlushPolicy # "late"
          /\ kfile' = Drain /\ ubuf' = <<>> /\ pc' = "flushed"
-         /\ UNCHANGED <<k, acked, failed, crashed, writes>>
+         /\ UNCHANGED <<k, acked, failed, crashed, writes, ffail>>
+\* flush() raises (transient fault): the line stays in the process's buffer.  The exception leaves FileDestination.__call__, the
+\* fan-out catches it and reports it THROUGH THE SAME DESTINATION: the report is the next message, written and flushed before the
+\* logging call returns -- which also takes the stranded line to the kernel.  (Swallowing the error instead would let the call
+\* return with the line only in user space.)
+FlushFail == /\ Alive /\ pc = "written" /\ MayFlushFail /\ ~ffail /\ FlushPolicy \in {"always", "swallow"} /\ k < N
+             /\ pc' = "flushfailed" /\ ffail' = TRUE
+             /\ UNCHANGED <<k, ubuf, kfile, acked, failed, crashed, writes>>
+WriteReport == /\ Alive /\ pc = "flushfailed" /\ FlushPolicy # "swallow"
+               /\ k' = k + 1 /\ ubuf' = Append(ubuf, Piece(k + 1, "whole")) /\ pc' = "written" /\ writes' = 1
+               /\ UNCHANGED <<kfile, acked, failed, crashed, ffail>>
 Return == /\ Alive /\ (pc = "flushed" \/ (pc = "written" /\ (FlushPolicy = "late" \/ (FlushPolicy = "skip_some" /\ k % 2 = 1))))
-          /\ acked' = acked \cup {k} /\ k' = k + 1 /\ pc' = "idle" /\ writes' = 0
+          /\ acked' = acked \cup {k} /\ k' = k + 1 /\ pc' = "idle" /\ writes' = 0 /\ ffail' = FALSE
           /\ UNCHANGED <<ubuf, kfile, failed, crashed>>
+\* broken sibling "swallow": the flush error is swallowed and the call returns (TLC must reject it)
+SwallowReturn == /\ FlushPolicy = "swallow" /\ Alive /\ pc = "flushfailed"
+                 /\ acked' = acked \cup {k} /\ k' = k + 1 /\ pc' = "idle" /\ writes' = 0 /\ ffail' = FALSE
+                 /\ UNCHANGED <<ubuf, kfile, failed, crashed>>
 LateFlush == /\ FlushPolicy = "late" /\ Alive /\ pc = "idle" /\ ubuf # <<>>
-             /\ kfile' = Drain /\ ubuf' = <<>> /\ UNCHANGED <<k, pc, acked, failed, crashed, writes>>
+             /\ kfile' = Drain /\ ubuf' = <<>> /\ UNCHANGED <<k, pc, acked, failed, crashed, writes, ffail>>
 Crash == /\ ~crashed /\ crashed' = TRUE /\ ubuf' = <<>>
-         /\ UNCHANGED <<k, pc, kfile, acked, failed, writes>>
-Next == Crash \/ Flush \/ Return \/ LateFlush \/ DumpsFail \/ \E b \in BOOLEAN : Write(b)
+         /\ UNCHANGED <<k, pc, kfile, acked, failed, writes, ffail>>
+Next == Crash \/ FlushFail \/ WriteReport \/ SwallowReturn \/ Flush \/ Return \/ LateFlush \/ DumpsFail \/ \E b \in BOOLEAN : Write(b)
 Spec == Init /\ [][Next]_vars
 
 Complete == SelectSeq(kfile, LAMBDA p : p.part = "whole")
